@@ -297,6 +297,48 @@ def decrypt (P : Prims) (S : Src) (st : Stack) (h : Half) (record : Bytes) : Out
     let localMAC := tls10MAC P k.mac h.seq hdr (payload.take n)
     if localMAC == remoteMAC && paddingGood then bump (payload.take n) else .alert S.alertBadRecordMAC
 
+/-! ### Conn read side: from a record on the wire to the record-type switch
+
+`Conn.readRecordOrCCS` of both stacks, on a connection whose handshake is complete (`h.cipher` is the
+cipher installed by the peer's ChangeCipherSpec): the only way from the bytes of a record to the
+`switch typ` that hands application data to `Read`, acts on alerts, … is through `c.in.decrypt`.
+
+  tlcp   header: version must be c.vers; `c.in.decrypt(record)` (implicit sequence number
+         `c.in.seq`); an error is fatal (alert, the connection is dead).
+  dtlcp  header: version must be c.vers, else the record is dropped; `c.in.seq` := epoch ‖ seq of
+         the header; `c.in.decrypt(record)` — whatever the epoch says, there is one cipher; an error
+         drops the record; then `epoch < c.readEpoch` drops it; the replay window (C16's subject) may
+         drop it.  `ReadFrom` has its own copy of these steps with the same order.
+
+`rxDeliver` is that path up to the replay window: what reaches the type switch. -/
+
+structure RxState where
+  half : Half
+  /-- `c.vers` -/
+  vers : Nat
+  /-- dtlcp `c.readEpoch` -/
+  readEpoch : Nat
+  deriving DecidableEq, Repr
+
+def rxDeliver (P : Prims) (S : Src) (st : Stack) (c : RxState) (record : Bytes) : Option (Nat × Bytes) :=
+  let hl := S.recordHeaderLen
+  if record.length < hl then none else
+  let typ := (record.getD 0 0).toNat
+  let vers := (record.getD 1 0).toNat * 256 + (record.getD 2 0).toNat
+  let n := (record.getD (hl - 2) 0).toNat * 256 + (record.getD (hl - 1) 0).toNat
+  if vers != c.vers then none else
+  if hl + n != record.length then none else
+  match st with
+  | .tlcp =>
+    match decrypt P S st c.half record with
+    | .ok (data, _) => some (typ, data)
+    | _ => none
+  | .dtlcp =>
+    let epoch := (record.getD 3 0).toNat * 256 + (record.getD 4 0).toNat
+    match decrypt P S st { c.half with seq := (record.drop 3).take 8 } record with
+    | .ok (data, _) => if epoch < c.readEpoch then none else some (typ, data)
+    | _ => none
+
 /-! ### Conn write side -/
 
 structure WriteSide where
